@@ -422,6 +422,7 @@ func CheckC14(e *Env) int {
 	progs = append(progs, sameNamedValuesFamily()...)
 	progs = append(progs, namedResultsFamily()...)
 	progs = append(progs, copiedHelperFirstImportFamily()...)
+	progs = append(progs, variadicBlankParamFamily()...)
 	results := RunPool(e, progs, PoolOpts{Execute: true, Name: "c14"})
 	byKey := map[key]*ProgResult{}
 	for _, pr := range results {
